@@ -32,7 +32,7 @@ for pid in props:
     })
 man = {
     "version": 1,
-    "setup_cmd": "cd lean && lake build Pyrealb driver 2>&1 | tail -5 && cd .. && /venv/bin/python -m harness.smoke",
+    "setup_cmd": "/venv/bin/python -m harness.setup",
     "hooks": {
         "guard": "PYREALB_VERIF",
         "enable": "no source hooks: the adapters import /repo/src in-process and wrap methods from outside (reserved guard PYREALB_VERIF=1)",
